@@ -4,7 +4,7 @@
    Every list of ids in a case was produced by the implementation (Next-only enumeration of a
    fresh searcher); the harness never computes an expected result.  *)
 From Coq Require Import ZArith List Bool.
-From Verif Require Import Common.Bytes Cursor.Cursor Cursor.Machines Cursor.MachReaders Extracted.Extracted.
+From Verif Require Import Common.Bytes Cursor.Cursor Cursor.Machines Cursor.MachReaders.
 Import ListNotations.
 Local Open Scope Z_scope.
 
@@ -30,7 +30,12 @@ Inductive case :=
    another fresh searcher: contract checking on the real trace *)
 | CContract (enum : list Z) (prog : list call) (impl : list res).
 
-(* the guard flag of every Boolean node is the T1 fact, not something the harness chooses *)
+(* the guard flag of every Boolean node is not something the harness chooses: it is the T1 fact
+   XCursor.boolean_should_guard, tied to this literal by Extracted/Obligations_C08.v (ob_corr_guard);
+   this file does not import Extracted.v itself because case shards are evaluated while other
+   checks may be regenerating it *)
+Definition should_guard : bool := true.
+
 Fixpoint with_guard (g : bool) (t : stree) : stree :=
   match t with
   | Leaf l => Leaf l
@@ -90,7 +95,7 @@ Definition nonneg_targets (prog : list call) : bool :=
   forallb (fun c => match c with Advance t => 0 <=? t | Next => true end) prog.
 
 Definition model_tree (t : stree) (prog : list call) : option (list res) :=
-  let t' := with_guard XCursor.boolean_should_guard t in
+  let t' := with_guard should_guard t in
   run (default_fuel t') (build t') prog.
 
 Definition check (c : case) : bool :=
